@@ -1,0 +1,10 @@
+//go:build !verif
+
+package gkvlite
+
+// Verification hooks (see verif_on.go).  Without the "verif" build tag they
+// are empty and inlined away.
+
+func verifEvent(ev string, t *Collection, r *rootNodeLoc) {}
+
+func verifYield(point string, t *Collection) {}
